@@ -37,6 +37,9 @@ def main(tier, seed):
     items += families.generated(seed + 6, 20 if quick else 200, inputs=2, family='gen6')
     items += fam_tt.template_family(seed, tier)[::4 if quick else 1]
     items += fam_tt.exit_templates()
+    items += fam_tt.template_family(seed, tier, only=[t for t in fam_tt.TEMPLATES if t[0] in ('truth_lowerings', 'halting_problem')])[::1 if not quick else 2]
+    from hv import fam_ops
+    items += fam_ops.fold_family([2])
     cov = {'static_shapes': st['cases'], 'static_states': st['states'], 'static_accepted': st['accepted'],
            'static_rejected': st['rejected'], 'static_dropped_statements': st['dropped_statements'],
            'static_over_rejections_info': st['over_rejections'], 'static_strata': st['strata']}
